@@ -96,6 +96,7 @@ static Plan plan_C01(Rng& r, const std::string& tier) {
 		for (int e = 0; e < ep; ++e) {
 			TA A, B; gen_incl_pair(r, pool, r.chance(1, 6) ? (thorough ? 8 : 7) : r.range(2, 5), r.chance(1, 4), A, B);
 			int a = g.load(A, 0), b = g.load(B, 0);
+			if (r.chance(1, 5)) g.push(cli_step(r, c, 0, 3, mdl::to_lit(A), mdl::to_lit(B)));     // the same question through the real command-line tool
 			if (r.chance(1, 4)) g.push(mk(c, "et_copy", {a}), 0);                   // operand shares storage with another handle
 			if (r.chance(1, 5)) g.push(mk(c, "churn", {long(r.below(100000)), long(r.range(4, 30))}));
 			int k = r.range(1, 3);
@@ -126,6 +127,7 @@ static Plan plan_C02(Rng& r, const std::string&) {
 			TA B = r.chance(1, 3) ? derive_ta(r, pool, A, int(r.below(6))) : gen_ta(r, pool, o);     // overlapping numbers on purpose
 			int a = g.load(A, 0), b = g.load(B, 0);
 			if (r.chance(1, 3)) g.value_ops(1);
+			if (r.chance(1, 5)) g.push(cli_step(r, c, 0, 1 + long(r.below(2)), mdl::to_lit(A), mdl::to_lit(B)));
 			int k = r.range(1, 3);
 			for (int i = 0; i < k; ++i) {
 				switch (r.below(4)) {
@@ -159,6 +161,7 @@ static Plan plan_C03(Rng& r, const std::string&) {
 			TA A = gen_ta(r, pool, o);
 			int a = g.load(A, 0);
 			if (r.chance(1, 3)) g.push(mk(c, "et_copy", {a}), 0);
+			if (r.chance(1, 5) && A.states().size() <= 8) g.push(cli_step(r, c, 0, 0, mdl::to_lit(A), ""));      // vata [-p|-s] load
 			int k = r.range(1, 3);
 			for (int i = 0; i < k; ++i) {
 				switch (r.below(3)) {
@@ -215,6 +218,7 @@ static Plan plan_C05(Rng& r, const std::string&) {
 			int a = g.load(A, 0);
 			if (r.chance(1, 3)) g.push(mk(c, "et_copy", {a}), 0);
 			g.push(mk(c, "et_reduce", {a}), 0);
+			if (r.chance(1, 6) && A.states().size() <= 8) g.push(cli_step(r, c, 0, 6, mdl::to_lit(A), ""));      // vata red
 			if (r.chance(1, 3)) g.mutate_ops(1, pool);
 		}
 		progs.push_back(g.out);
@@ -243,6 +247,7 @@ static Plan plan_C06(Rng& r, const std::string&) {
 			// other symbols get registered in the alphabet between load and complement
 			if (r.chance(1, 2)) { TAOpts o2; o2.max_states = 2; o2.max_rules = 2; g.load(gen_ta(r, pool, o2), al); }
 			g.push(mk(c, "et_complement", {a}), al == 0 ? 0 : -1);
+			if (r.chance(1, 6)) g.push(cli_step(r, c, 0, 5, mdl::to_lit(A), ""));      // vata cmpl (over the default alphabet)
 			if (r.chance(1, 4)) g.push(mk(c, "churn", {long(r.below(100000)), long(r.range(4, 30))}));
 		}
 		progs.push_back(g.out);
@@ -364,8 +369,9 @@ static Plan plan_C15(Rng& r, const std::string&) {
 		for (int e = 0; e < ep; ++e) {
 			TAOpts o; o.max_states = r.chance(1, 8) ? r.range(8, 14) : r.range(1, 6); o.sparse = r.chance(1, 3);
 			if (r.chance(1, 2)) o.flavor = int(r.below(6));
-			int a = g.load(gen_ta(r, pool, o), 0);
+			TA W = gen_ta(r, pool, o); int a = g.load(W, 0);
 			g.push(mk(c, "et_witness", {a}), 0);
+			if (r.chance(1, 6)) g.push(cli_step(r, c, 0, 4, mdl::to_lit(W), ""));      // vata witness
 			if (r.chance(1, 4)) g.mutate_ops(1, pool);
 		}
 		progs.push_back(g.out);
